@@ -172,6 +172,11 @@ class Stop(Exception):
     """Ends the current history after a violation has been recorded."""
 
 
+class EndHistory(Exception):
+    """Ends the current history without a violation: the datasets may have been damaged silently by a call from a class
+    with known defects, so nothing that happens later could be attributed to its cause."""
+
+
 # ---------------------------------------------------------------- model of one dataset
 class Model:
     """What the harness knows about a dataset independently of glue: the ordered identities it expects in
@@ -186,6 +191,9 @@ class Model:
         self.broken_by_harness = []   # cids whose component was deliberately corrupted by an invalid call that was accepted
         self.aliased_to = None    # sibling Model whose Component / coordinate objects this dataset shares after a refresh
         self.alias_stale = False  # ... and the sibling changed shape afterwards
+        self.entangled = False    # exchanged component / coordinate objects with a sibling through a refresh: later
+        #                           damage of either dataset is an after-effect of that; only the two directly attributable
+        #                           observations (shape of shared objects, source robbed of its derived attributes) are judged
         self.removed = []         # stored attributes the harness removed (candidates for remove-again / re-add)
         self.robbed = []          # derived cids of this dataset after it served as the source of a sibling's refresh
         self.counter = 0
@@ -1309,8 +1317,10 @@ def gen_refresh(world, rng, m, allow_hostile):
             sm.robbed = list(sm.d.derived_components)
             m.prune()
         # the documented outcome is not modelled for a sibling source: only the invariants and the ledger apply
-        return Op("refresh", "flagged", m, lambda: d.update_values_from_data(o), expect="any",
-                  ledger={"numerical": "any"}, desc=[olabs, flags], post=post, sigx={f: True for f in flags})
+        op_ = Op("refresh", "flagged", m, lambda: d.update_values_from_data(o), expect="any",
+                 ledger={"numerical": "any"}, desc=[olabs, flags], post=post, sigx={f: True for f in flags})
+        op_.sibling = sm
+        return op_
 
     # build the source dataset from what d holds
     new_shape = shape
@@ -1488,6 +1498,8 @@ def run_history(ctx, mode, start, length, allow_hostile):
         if composite and any(x[0].variant == "onto_existing" for x in done):
             # the slot semantics of re-identifying onto an identifier added in the same block are not defined
             ctx.count("ledger_skipped_block_with_update_id_onto_existing")
+        elif world.rec is not None and not problems and any(x[0].m.entangled for x in done):
+            ctx.count("ledger_skipped_entangled_dataset")
         elif world.rec is not None and not problems:
             expect = {}
             for op, outcome, ret, exc, b_op in done:
@@ -1544,6 +1556,8 @@ def run_history(ctx, mode, start, length, allow_hostile):
             ctx.count("steps_without_hub")
         if problems:
             raise Stop()
+        if state.get("end_after_step"):
+            raise EndHistory(state["end_after_step"])
     if state["changed"] >= 3:
         ctx.count("histories_with_3_or_more_effective_calls")
     if ctx.rng.random() < 0.002:
@@ -1553,7 +1567,10 @@ def run_history(ctx, mode, start, length, allow_hostile):
 def check_state(ctx, world, rec, trace, mode, start, state, composite, skip_semantics=False):
     """(L2) + (I) after one call; returns the number of problems reported."""
     op, outcome, ret, exc, b_op = rec
-    if skip_semantics:
+    if op.m.entangled:
+        ctx.count("semantic_check_skipped_entangled_dataset")
+        problems = 0
+    elif skip_semantics:
         ctx.count("semantic_check_skipped_listener_changed_the_dataset")
         problems = 0
     else:
@@ -1578,6 +1595,14 @@ def check_state(ctx, world, rec, trace, mode, start, state, composite, skip_sema
     if composite:
         ctx.count("calls_inside_delay_block")
     state["prev"] = op.kind
+    if op.kind == "refresh" and getattr(op, "sibling", None) is not None:
+        # whatever the outcome, the two datasets may share Component / coordinate objects from now on
+        op.m.entangled = True
+        op.sibling.entangled = True
+        ctx.count("datasets_entangled_by_sibling_refresh")
+    elif op.kind == "refresh" and op.sigx and not problems:
+        # a refresh of a class with known defects that left no visible damage *yet*
+        state["end_after_step"] = "flagged_refresh_without_visible_damage"
     return problems
 
 
@@ -1657,7 +1682,20 @@ def check_semantics(ctx, world, op, outcome, ret, exc, b, trace):
     return n
 
 
+ENTANGLED_JUDGED = (("component_shape_differs", "shares_objects_with_sibling_that_changed_shape"),
+                    ("component_unreadable", "derived_component_taken_over_by_dataset_refreshed_from_this_one"))
+
+
 def report(ctx, world, op, m, inv, outcome, trace, mode=None, start=None):
+    if m.entangled:
+        kept = [x for x in inv if (x[0], x[1].get("cause")) in ENTANGLED_JUDGED]
+        for x in inv:
+            if x not in kept:
+                ctx.count("after_effect_not_judged_on_entangled_dataset:" + x[0])
+        if inv and not kept:
+            # damaged, but not in a way that names its cause: stop looking at this world
+            raise EndHistory("entangled_dataset_damaged")
+        inv = kept
     for kind, extra, detail in inv:
         sig = {"kind": kind, "op": op.kind if op is not None else "none_on_this_dataset",
                "variant": op.variant if op is not None else "-", "outcome": outcome}
@@ -1690,6 +1728,9 @@ def run_case(ctx, case):
             ctx.count("histories_completed")
         except Stop:
             ctx.count("histories_ended_by_violation")
+            ctx.count("histories_ended_after_first_violation")
+        except EndHistory as e:
+            ctx.count("histories_ended_undecided:" + str(e))
     for k, v in LOOKUP_CASES.items():
         ctx.count("lookup_case:" + k, v)
     LOOKUP_CASES.clear()
